@@ -482,6 +482,12 @@ def replay(run, path):
         i = implops.run_op(it); m = common.run_driver([d['case']])[0]; s = props2.spec_op(*it)
         print('implementation:', i, 'model:', m, 'specification:', s)
         return 0 if i == m == s else 1
+    if 'comparisons' in d:
+        import implops
+        seq = [(op, int(a), int(b)) for op, a, b in d['comparisons']]
+        i = implops.run_cmpstats((d['precision'], d['guard'], d['display'], seq))
+        print('implementation:', i, 'expected:', d['expected'])
+        return 0 if i == d['expected'] else 1
     if 'text' in d:
         import props3
         r = props3.parse_text((d['text'], False)); m = common.run_driver(['PARSE ' + d['text'].encode('utf-8').hex()])[0]
